@@ -26,6 +26,29 @@ def _run_delay(sp, tp, seed, how):
     with specmod.quiet():
         if how == "model_api":
             r = py_simulate_model(tp, Model=M, stochastic=True, delay=True, return_dataframe=False)
+        elif how == "continued":
+            # a run in two pieces: the second piece starts from the first one's final state, time and delay queue
+            I = ModelCSimInterface(M)
+            I.py_set_dt(dt)
+            m = max(2, len(tp) // 2)
+            q = ArrayDelayQueue.setup_queue(len(sp["reactions"]), len(tp), dt)
+            r1 = DelaySSASimulator().py_delay_simulate(I, q, tp[:m + 1].copy())
+            x1 = np.asarray(r1.py_get_result(), dtype=float)
+            I.py_set_initial_state(x1[-1].copy())
+            I.py_set_initial_time(float(tp[m]))
+            r = DelaySSASimulator().py_delay_simulate(I, r1.py_get_delay_queue(), tp[m:].copy())
+            x2 = np.asarray(r.py_get_result(), dtype=float)
+            x = np.vstack([x1, x2[1:]])[:, order]
+            q = r.py_get_delay_queue()
+            pending = np.zeros(len(sp["reactions"]))
+            buf = np.zeros(len(sp["reactions"]))
+            times = []
+            for _ in range(len(tp) + 2):
+                times.append(q.py_get_next_queue_time())
+                q.py_get_next_reactions(buf)
+                pending += buf
+                q.py_advance_time()
+            return x, pending, times
         else:
             I = SafeModelCSimInterface(M) if how == "safe_simulator" else ModelCSimInterface(M)
             I.py_set_dt(dt)
@@ -94,9 +117,10 @@ def check_path(case):
         d = base["reactions"][j]["delay"]
         if d["type"] == "fixed":
             tau = _delay_value(base, d, "delay")
+            slack = 3.0 if case["how"] == "continued" else 1.5      # the hand-over between two pieces may cost a slot
             for k in range(len(tp)):
-                lo_t = tp[k] - tau - 1.5 * dt
-                hi_t = tp[k] - tau + 1.5 * dt
+                lo_t = tp[k] - tau - slack * dt
+                hi_t = tp[k] - tau + slack * dt
                 lo_rows = np.nonzero(tp <= lo_t)[0]
                 hi_rows = np.nonzero(tp >= hi_t)[0]
                 lo = N[lo_rows[-1], j] if len(lo_rows) else 0.0
@@ -295,7 +319,7 @@ def path_cases(draw):
         rx["delay"] = d
         b.reactions.append(rx)
     x0 = {s: float(draw(st.integers(1, 30))) for s in species}
-    how = "safe_simulator" if any_delayed_reactant else draw(st.sampled_from(["simulator", "simulator", "model_api"]))
+    how = "safe_simulator" if any_delayed_reactant else draw(st.sampled_from(["simulator", "simulator", "model_api", "continued"]))
     return {"kind": "path", "spec": b.spec(x0), "grid": [i * dt for i in range(n)], "how": how,
             "seed": draw(st.integers(1, 2 ** 40))}
 
